@@ -1,9 +1,9 @@
 (* C12 - proofs: the analysis results are a stable fixed point of the pass pipeline.
    Statements are those of Props/C12.v:
      avail_fix, avail_fix_fresh, passes_frame, ecallterm_idem, rerun_live, diags_ignore_udef.
-   C12_live_statement is FALSE of the model (`live_fix_counterexample`: a call site whose label maps
-   to a function id without a function is skipped by `live_node`, so its live_out is never set);
-   it is proved under the hypothesis `calls_resolved` as `live_fix_partial`.  There is no `live_fix`. *)
+   The liveness statement without a hypothesis is FALSE of the model (`live_fix_counterexample`: a
+   call site whose label maps to a function id without a function is skipped by `live_node`, so its
+   live_out is never set); Props/C12.v states it under `calls_resolved`, proved as `live_fix_partial`. *)
 From RV.Model Require Import Base I32 Imm Lexer Isa Parser Reader Cfg Avail Live Lints.
 From RV.Spec Require Import LiveSpec FixSpec.
 From Coq Require Import Lia ZifyN ZifyNat ZifyBool.
@@ -955,11 +955,19 @@ Proof.
   inversion G. reflexivity.
 Qed.
 
+Lemma rm_remove_set_norm s m : rm_norm (rm_remove_set s m) = rm_remove_set s (rm_norm m).
+Proof.
+  unfold rm_remove_set. unfold rm_norm at 1.
+  change (rm_norm m) with (map (fun kv : reg * aval => (fst kv, norm (snd kv))) m).
+  rewrite filter_map_comm. reflexivity.
+Qed.
+
 (* the transfer of a node depends on the node only through its instruction and its old memory outs *)
 Lemma avail_transfer_shape n ri mi :
   exists r2 m2, forall c, cn c = n ->
     avail_transfer c ri mi =
-    (rule_perform_math_ops n (rule_zero_to_const_reg (rule_pull_value_from_csr_memory n r2 (mout c)) ri) ri,
+    (rm_remove_set const_zero_set
+       (rule_perform_math_ops n (rule_zero_to_const_reg (rule_pull_value_from_csr_memory n r2 (mout c)) ri) ri),
      rule_known_values_to_stack
        (rule_push_value_to_csr_memory n m2
           (rule_perform_math_ops n (rule_zero_to_const_reg (rule_pull_value_from_csr_memory n r2 (mout c)) ri) ri)) ri).
@@ -978,7 +986,7 @@ Proof.
   assert (R : rm_norm (rule_perform_math_ops (cn c) (rule_zero_to_const_reg (rule_pull_value_from_csr_memory (cn c) r2 (mout c)) ri) ri)
             = rm_norm (rule_perform_math_ops (cn c) (rule_zero_to_const_reg (rule_pull_value_from_csr_memory (cn c) r2 (mout c')) ri) ri)).
   { apply rule_math_congr, rule_zero_reg_congr, rule_pull_congr, M. }
-  split; [exact R|]. f_equal. apply rule_push_congr, R.
+  split; [rewrite !rm_remove_set_norm; now rewrite R|]. f_equal. apply rule_push_congr, R.
 Qed.
 
 (* -- one node, one sweep -- *)
@@ -1013,7 +1021,8 @@ Lemma avail_node_nochange g vis i g' c :
   rm_norm (an_ri g vis c) = rm_norm (rin c) /\ mm_norm (an_mi g vis c) = mm_norm (min c) /\
   rm_norm (fst (an_T g vis c)) = rm_norm (rout c) /\ mm_norm (snd (an_T g vis c)) = mm_norm (mout c).
 Proof.
-  intros H E. rewrite (avail_node_some g vis i c E) in H. inversion H as [[Hg Hc]]. split; [reflexivity|].
+  intros H E. rewrite (avail_node_some g vis i c E) in H. apply pair_equal_spec in H. destruct H as [Hg Hc].
+  split; [symmetry; exact Hg|].
   apply negb_false_iff in Hc. rewrite !andb_true_iff in Hc. destruct Hc as [[[A B] C] D].
   apply rm_eqb_norm in A, C. apply mm_eqb_norm in B, D. auto.
 Qed.
